@@ -391,7 +391,9 @@ func postInline(fw *formatWriter, source []byte, cursor *commonmark.Cursor) {
 // titleEscaper escapes the characters of a link title's text
 // that would end a title written in double quotes,
 // start an escape, or start a character reference.
-var titleEscaper = strings.NewReplacer(`\`, `\\`, `"`, `\"`, `&`, `\&`)
+// Line endings are written as character references:
+// the next line of a title could otherwise start a block or be blank.
+var titleEscaper = strings.NewReplacer(`\`, `\\`, `"`, `\"`, `&`, `\&`, "\n", "&#10;", "\r", "&#13;")
 
 // destinationEscaper escapes the characters of a normalized URI
 // that would end a link destination written without angle brackets
